@@ -98,7 +98,7 @@ theorem findDepending_ren (f : Nat → Nat) (isa : Isa) (fd : Bool) (p : Ins) (r
   unfold findDepending
   have h1 : (renIns f p).dst = p.dst := rfl
   have h2 : (renIns f p).srcDst = p.srcDst := rfl
-  have h3 : (renIns f p).changes = p.changes := rfl
+  have h3 : startState (renIns f p) = startState p := rfl
   rw [h1, h2, h3, List.map_flatMap]
   apply flatMap_congr_mem
   intro d _
